@@ -17,6 +17,7 @@ pub mod c15;
 pub mod c16;
 pub mod c17;
 pub mod c18;
+pub mod c19;
 pub mod c20;
 pub mod common;
 
@@ -42,6 +43,7 @@ pub const PROPS: &[Prop] = &[
     Prop { id: "C08", run: c08::run, dbg_part: false, rule: c08::RULE, assumptions: c08::ASSUMPTIONS },
     Prop { id: "C09", run: c09::run, dbg_part: true, rule: c09::RULE, assumptions: c09::ASSUMPTIONS },
     Prop { id: "C10", run: c10::run, dbg_part: true, rule: c10::RULE, assumptions: c10::ASSUMPTIONS },
+    Prop { id: "C11", run: c11::run, dbg_part: false, rule: c11::RULE, assumptions: c11::ASSUMPTIONS },
     Prop { id: "C12", run: c12::run, dbg_part: true, rule: c12::RULE, assumptions: c12::ASSUMPTIONS },
     Prop { id: "C13", run: c13::run, dbg_part: true, rule: c13::RULE, assumptions: c13::ASSUMPTIONS },
     Prop { id: "C14", run: c14::run, dbg_part: true, rule: c14::RULE, assumptions: c14::ASSUMPTIONS },
@@ -49,6 +51,7 @@ pub const PROPS: &[Prop] = &[
     Prop { id: "C16", run: c16::run, dbg_part: false, rule: c16::RULE, assumptions: c16::ASSUMPTIONS },
     Prop { id: "C17", run: c17::run, dbg_part: true, rule: c17::RULE, assumptions: c17::ASSUMPTIONS },
     Prop { id: "C18", run: c18::run, dbg_part: true, rule: c18::RULE, assumptions: c18::ASSUMPTIONS },
+    Prop { id: "C19", run: c19::run, dbg_part: true, rule: c19::RULE, assumptions: c19::ASSUMPTIONS },
     Prop { id: "C20", run: c20::run, dbg_part: true, rule: c20::RULE, assumptions: c20::ASSUMPTIONS },
 ];
 
